@@ -53,8 +53,14 @@ PARTIAL = ("Names with non-ASCII cased letters are outside the model (Base/Bytes
            "goodbye and its repeat go out on every interface/family the service is announced on "
            "(C09_goodbye_everywhere_announced). REFUTED: that nothing of the service remains in the registry after the "
            "repeat (C09_registry_forgets_unregistered_service_refuted; finding C09-registry-keeps-unregistered-service, "
-           "not rejected by the monitors). NOT proved over histories: that no live response after the unregister carries "
-           "a record of the service (single-step theorems for every state + chk_C09 code 3 executed on every history). "
+           "not rejected by the monitors). SILENCE over all histories (round 5, micro-step reading of an iteration, "
+           "Model/RegistryTrace.v): every response is a goodbye or consists of records (rec_of) of services that are in the "
+           "service map when the micro-step that sends it ends, under the names the interface's registry holds then, with a "
+           "key that was in the map before the iteration or is registered by one of its calls "
+           "(C09_responses_only_for_registered_services_all_histories); for a key that is not in the map and not registered "
+           "again no live record is built from a service under that key "
+           "(C09_no_live_record_of_unregistered_service_all_histories). A record 'of a service' is identified by what it is "
+           "built from, not by its owner name alone (services may share a host name or a type). "
            "The other theorems are single-step statements for every state; that chk_C09 accepts every run of the daemon model "
            "(in particular that no response ever carries a record of an unregistered service, over whole histories) is "
            "validated on every generated history by running the monitor on the model's own output, not proved. chk_C09 "
